@@ -697,10 +697,11 @@ def deserialize_as(E, blk, T, dest_ty):
 
 
 @model('IpldBlock::serialize_cbor', 'IpldBlock::serialize_dag_cbor', 'IpldBlock::serialize', 'RawBytes::serialize',
-       'to_vec', 'fvm_ipld_encoding::to_vec', 'serialize', 'serialize_vec', 'RawBytes::new', 'RawBytes::from')
+       'to_vec', 'fvm_ipld_encoding::to_vec', 'serialize', 'serialize_vec', 'RawBytes::new', 'RawBytes::from',
+       'cbor::serialize', 'cbor::serialize_vec')
 def _(E, c):
     m = c.callee.idents[-1]
-    if m in ('serialize', 'serialize_vec') and len(c.callee.idents) == 1 and len(c.args) == 2:
+    if m in ('serialize', 'serialize_vec') and (len(c.callee.idents) == 1 or c.callee.idents[-2] == 'cbor') and len(c.args) == 2:
         # fil_actors_runtime::cbor::serialize(value, desc)
         return ok(BlockV(E.deref(c.args[0])), c.dest_ty)
     if m in ('new', 'from'):
@@ -1948,6 +1949,8 @@ def bitfield_empty(E, v):
     v = E.deref(v)
     if isinstance(v, LazyV):
         v = E.materialize(v.ty, v.name)
+    if isinstance(v, BitSetV):
+        return len(v.bits) == 0
     if isinstance(v, BitFieldV):
         return z3.Int(v.name + '#card') == 0
     raise Inconclusive('expected BitField, got %r' % (v,))
@@ -1976,10 +1979,12 @@ def _(E, c):
     v = E.deref(c.args[0])
     if isinstance(v, LazyV):
         v = E.materialize(v.ty, v.name)
+    if isinstance(v, BitSetV):
+        return IntV(len(v.bits), 'u64')
     return IntV(z3.Int(v.name + '#card'), 'u64')
 
 
-@model('BitField::new', 're:^<BitField as Default>::default$')
+@model('BitField::new_symbolic_unused')
 def _(E, c):
     nm = E.ctx.fresh_name('bf_new')
     E.ctx.assume(z3.Int(nm + '#card') == 0)
@@ -2014,6 +2019,8 @@ def _(E, c):
     if isinstance(v, LazyV):
         v = E.materialize(v.ty, v.name)
     k = E.deref(c.args[1])
+    if isinstance(v, BitSetV):
+        return _bs_has(E, v, k.v)
     tbl = E.ctx.memo.setdefault(('bfbits', v.name), [])
     for (kt, b) in tbl:
         if E.ctx.branch(kt == k.v):
@@ -2133,3 +2140,104 @@ def _(E, c):
             if n == 'Err':
                 return err(payload(E, rv, 'Err'), c.dest_ty)
     return ok(UNIT, c.dest_ty)
+
+
+# content-addressed ids of serialised objects (market deal cid): a function of the object identity — the same object
+# (same symbolic name) gets the same cid, different objects get different cids (collision resistance)
+@model('serialized_deal_cid')
+def _(E, c):
+    b = block_of(E, c.args[1])
+    obj = b.obj
+    key = obj.name if isinstance(obj, LazyV) else (obj.lazy if isinstance(obj, StructV) and obj.lazy else repr(obj))
+    tbl = E.ctx.memo.setdefault(('content_cids',), {})
+    if key not in tbl:
+        nm = E.ctx.fresh_name('contentcid')
+        cid = CidV(z3.Int(nm + '#cid'), ('content', key))
+        for other in tbl.values():
+            E.ctx.assume(other.term != cid.term)
+        tbl[key] = cid
+    return ok(tbl[key], c.dest_ty)
+
+
+# explicitly built bit fields (BitField::new() + set ...): finite sets of integers
+class BitSetV:
+    __slots__ = ('bits',)
+
+    def __init__(self, bits=()):
+        self.bits = tuple(bits)
+
+    def __repr__(self):
+        return 'BitSet%r' % (self.bits,)
+
+
+VALUE_TYPES[BitSetV] = 'BitField'
+
+
+def _bitset(E, v):
+    t = E.deref(v)
+    if isinstance(t, LazyV):
+        t = E.materialize(t.ty, t.name)
+    return t
+
+
+def _bs_has(E, bs, x):
+    for b in bs.bits:
+        eq = (b == x)
+        if (eq if isinstance(eq, bool) else E.ctx.branch(eq)):
+            return True
+    return False
+
+
+@model('BitField::new', 're:^<BitField as Default>::default$')
+def _(E, c):
+    return BitSetV(())
+
+
+@model('BitField::set', 'BitField::unset')
+def _(E, c):
+    bs = _bitset(E, c.args[0])
+    x = E.deref(c.args[1]).v
+    if not isinstance(bs, BitSetV):
+        raise Inconclusive('BitField::set on a symbolic bit field')
+    if c.callee.idents[-1] == 'set':
+        if not _bs_has(E, bs, x):
+            E.store(c.args[0], BitSetV(bs.bits + (x,)))
+    else:
+        keep = []
+        for b in bs.bits:
+            eq = (b == x)
+            if not (eq if isinstance(eq, bool) else E.ctx.branch(eq)):
+                keep.append(b)
+        E.store(c.args[0], BitSetV(keep))
+    return UNIT
+
+
+
+
+def _bs_iter(E, bs):
+    items = list(bs.bits)
+    out = []
+    for x in items:
+        pos = len(out)
+        while pos > 0:
+            lt = (x < out[pos - 1])
+            if (lt if isinstance(lt, bool) else E.ctx.branch(lt)):
+                pos -= 1
+            else:
+                break
+        out.insert(pos, x)
+    return ListIter([IntV(x, 'u64') for x in out])
+
+
+AS_ITER[BitSetV] = _bs_iter
+
+
+@model('BitField::iter', 'BitField::bounded_iter')
+def _(E, c):
+    bs = _bitset(E, c.args[0])
+    if not isinstance(bs, BitSetV):
+        raise Inconclusive('iteration over a symbolic bit field')
+    it = iter_obj(_bs_iter(E, bs))
+    if c.callee.idents[-1] == 'bounded_iter':
+        return ok(it, c.dest_ty)
+    return it
